@@ -266,7 +266,7 @@ def stats_tuple(h):
     return None if st is None else tuple(float(getattr(st, f)) for f in STAT_FIELDS)
 
 
-def numeric_equal(cfg, a, b, scale, what, ctx, sig, msg):
+def numeric_equal(cfg, a, b, scale, what, sig, ctx, msg):
     """Compare two histograms numerically (bins exactly, contents per exact/tolerant mode)."""
     exact = cfg["exact"]
     for ax in range(a.ndim):
